@@ -17,7 +17,7 @@ function genInput (rng, url) {
   const L = []
   L.push('function generated(a, b) {')
   L.push(`  const s1 = "# sourceMappingURL=${u()}", s2 = '//# sourceMappingURL=${u()}' + a;`)
-  L.push(`  const r1 = /# sourceMappingURL=${u().replace(/[/.]/g, '.')}/, t1 = \`# sourceMappingURL=${u()} \${a}\`;`)
+  L.push(`  const r1 = /# sourceMappingURL=${u().replace(/[^\w ]/g, '.')}/, t1 = \`# sourceMappingURL=${u()} \${a}\`;`)
   L.push(`  let acc = a + b.trim() + s1; /* # sourceMappingURL=${u()} (not last) */`)
   L.push('  acc += `${acc}-${b}`.concat(s2, r1.source, t1); // # sourceMappingURLx=nope')
   for (let i = 0, n = rng.int(6); i < n; i++) L.push(`  acc += a.slice(${i}) + ${JSON.stringify('line ' + i + ' # sourceMappingURL=' + u())};`)
@@ -56,9 +56,11 @@ function genOriginalMap (rng, inputLines) {
       tokens.push(t)
     }
   }
+  if (rng.bool(0.4) && nSources > 1) { let k = 0; for (const t of tokens) { if (t.src !== undefined && k++ < 3) t.src = nSources - 1 } }
   const map = { version: 3, file: 'gen.js', sources, names, mappings: S.encodeMappings(tokens) }
   if (rng.bool(0.35)) map.sourceRoot = rng.pick(['', 'root', 'root/', '/abs/root', 'http://h/p'])
-  if (rng.bool(0.3)) map.sourcesContent = sources.map(() => null)
+  // sourcesContent: absent, all null, or real text for some sources (bundlers embed the sources)
+  if (rng.bool(0.45)) map.sourcesContent = rng.bool(0.4) ? sources.map(() => null) : sources.map((x, i) => rng.bool(0.7) ? `// content of ${x}\nexport const v${i} = ${i}\n` : null)
   return { map, tokens }
 }
 
@@ -66,7 +68,8 @@ const REF_KINDS = ['inline', 'inline-charset', 'relative', 'relative-subfolder',
 
 function genCase (rng, refKind, chain, comments) {
   const file = '/srv/app/dist/gen.js'
-  const relName = 'gen.js.map'
+  // characters that a URL decoder would touch but a file name simply contains: + % blank
+  const relName = rng.pick(['gen.js.map', 'gen.js.map', 'gen+es5.js.map', 'gen%20v2.js.map', 'c++/gen.js.map'.replace('/', '_'), 'gen 100%.js.map'])
   let url = relName
   if (refKind === 'absolute') url = '/var/maps/gen.js.map'
   const lines = genInput(rng, url)
